@@ -1,4 +1,5 @@
 pub mod codec;
+pub mod flood;
 pub mod raw;
 pub mod rawpeer;
 pub mod sim;
